@@ -18,6 +18,8 @@ class FloatBuilder(Builder):
         self.model = model
 
     def leaf_sym(self, t):
+        if t.name in getattr(self, "fixed", {}):
+            return self.fixed[t.name]
         v = self.model[t.name]
         if t.sort == "real":
             return float(v)
@@ -29,18 +31,23 @@ def sample_models(case, mir, schema, n, seed):
     rnd = random.Random(seed * 7919 + hash(case.name) % 1000)
     h = Harness(mir, case.name + ":tv", case.prop)
     b = Builder(h, schema)
+    b.fixed = dict(getattr(case, "fixed", {}) or {})
     if case.recv is not None:
         b.value(case.recv_ty, case.recv)
     for c in case.calls:
         for (ty, t) in c.args:
-            b.value(ty.lstrip("&").strip(), t)
+            if not ty.startswith("@"):
+                b.value(ty.lstrip("&").strip(), t)
     for nme in getattr(case, "extra_syms", ()):
         if nme in getattr(case, "int_syms", ()):
             h.int(nme)
         else:
             h.real(nme)
     S = dict(h.syms)
+    S.update(b.fixed)
     assumptions = case.assume(S) if case.assume else []
+    assumptions = [(t, c) for (t, c) in assumptions if not isinstance(c, bool)]
+    S = dict(h.syms)
     s = z3.Solver()
     s.set("timeout", 5000)
     for (_, c) in assumptions:
@@ -111,11 +118,11 @@ def to_json(schema, h, ty, v):
         return None
     if name == "LinkIdx":
         return to_json(schema, h, "u32", v.fields[0])
-    if name in schema.structs:
-        if not schema.structs[name]:
+    if schema.lookup(ty) is not None:
+        if not schema.lookup(ty):
             return None
         out = {}
-        for f, fv in zip(schema.structs[name], v.fields):
+        for f, fv in zip(schema.lookup(ty), v.fields):
             if f.skip or fv is UNINIT:
                 continue
             out[f.json_name] = to_json(schema, h, f.ty, fv)
@@ -187,11 +194,15 @@ def diff_json(a, b, path="", out=None, rtol=1e-9, atol=1e-12):
 
 
 def validate_case(case, mir, schema, native, n, seed):
+    for wname, wfields in getattr(schema, "wrappers", {}).items():
+        mir.struct_fields[wname] = wfields
+        mir.struct_fields_all[wname] = [wfields]
     res = {"vectors": 0, "agree": 0, "disagreements": 0, "skipped": 0, "kinds": {}, "first_disagreement": None, "sample_vector": None}
     models = sample_models(case, mir, schema, n, seed)
     for mv in models:
         h = Harness(mir, case.name + ":tvf", case.prop, mode="float", loop_bound=200)
         b = FloatBuilder(h, schema, mv)
+        b.fixed = dict(getattr(case, "fixed", {}) or {})
         try:
             recv_val = b.value(case.recv_ty, case.recv) if case.recv is not None else None
             st = h.new_state()
@@ -199,7 +210,9 @@ def validate_case(case, mir, schema, native, n, seed):
             for c in case.calls:
                 row = []
                 for (ty, t) in c.args:
-                    if ty.startswith("&"):
+                    if ty.startswith("@"):
+                        row.append(("@", ty[1:]))
+                    elif ty.startswith("&"):
                         row.append(h.put(st, b.value(ty[1:].strip(), t)))
                     else:
                         row.append(b.value(ty, t))
@@ -214,9 +227,17 @@ def validate_case(case, mir, schema, native, n, seed):
                 if c.recv_path:
                     for seg in c.recv_path.split("."):
                         cur = h.eng.load_ptr(st, pp)
-                        idx = 0 if isinstance(cur, Enum) else mir.struct_fields[cur.ty].index(seg)
+                        idx = 0 if isinstance(cur, Enum) else mir.field_index(cur.ty, seg, len(cur.fields))
                         pp = Ptr(pp.root, pp.path + (idx,))
-                outs = h.run(c.fn, st, ([pp] if pp is not None and not case.free_fn else []) + list(call_args[ci]))
+                def _sub(pp0, path):
+                    q = pp0
+                    for seg in path.split("."):
+                        cur = h.eng.load_ptr(st, q)
+                        idx = 0 if isinstance(cur, Enum) else mir.field_index(cur.ty, seg, len(cur.fields))
+                        q = Ptr(q.root, q.path + (idx,))
+                    return q
+                resolved = [(_sub(p, a[1]) if isinstance(a, tuple) and len(a) == 2 and a[0] == "@" else a) for a in call_args[ci]]
+                outs = h.run(c.fn, st, ([pp] if pp is not None and not case.free_fn else []) + resolved)
                 if len(outs) != 1:
                     raise Unsupported(f"concrete run produced {len(outs)} outcomes")
                 o = outs[0]
@@ -232,8 +253,9 @@ def validate_case(case, mir, schema, native, n, seed):
             res.setdefault("skip_reasons", []).append(repr(e)[:200])
             continue
         b2 = Builder(h, schema)
+        b2.fixed = dict(getattr(case, "fixed", {}) or {})
         req = {"recv_ty": case.recv_ty if case.recv is not None else "<free>", "recv": b2.json(case.recv_ty, case.recv, mv) if case.recv is not None else None,
-               "calls": [{"fn": c.fn, "recv_path": c.recv_path, "args": [b2.json(ty.lstrip("&").strip(), t, mv) for (ty, t) in c.args]} for c in case.calls]}
+               "calls": [{"fn": c.fn, "recv_path": c.recv_path, "args": [b2.json(ty.lstrip("&").strip(), t, mv) for (ty, t) in c.args if not ty.startswith("@")]} for c in case.calls]}
         resp = native.call(req)
         if resp.get("kind") == "unsupported":
             res["skipped"] += 1
